@@ -185,6 +185,10 @@ void shim_delete(void *o) { __real_free(o); }
 void shim_init(void *o) { g_track = 1; eav_init(o); g_track = 0; }
 void shim_free(void *o) { g_track = 1; eav_free(o); g_track = 0; }
 int shim_setup(void *o) { g_track = 1; int r = eav_setup(o); g_track = 0; return r; }
+#ifndef HAVE_IDNKIT
+/* the per-part validator as tests/ and other direct callers use it (one int shared across calls) */
+int shim_utf8_domain(int *r, const char *s, size_t n, int tld) { g_track = 1; int rc = is_utf8_domain(r, s, s + n, tld ? true : false); g_track = 0; return rc; }
+#endif
 int shim_is_email(void *o, const char *s, size_t n) { g_track = 1; int r = eav_is_email(o, s, n); g_track = 0; return r; }
 const char *shim_errstr(void *o) { g_track = 1; const char *m = eav_errstr(o); g_track = 0; return m; }
 void shim_set_rfc(void *o, int v) { ((eav_t *)o)->rfc = (EAV_RFC)v; }
